@@ -1,0 +1,534 @@
+// verif.rs - verification hooks (compiled only with --cfg simple_irc_server_verif)
+//
+// Everything here is observation only: counters that tell an in-process test
+// harness when the server is quiescent, a per-connection copy of the
+// connection-private state, a JSON projection of the shared state, and
+// optional seeded yield points that widen lock-release windows.
+// Nothing in this file is compiled into a normal build.
+
+use super::*;
+use futures::FutureExt;
+use std::collections::BTreeMap;
+use std::fmt::Write as _;
+use std::sync::atomic::{AtomicBool, AtomicU64, Ordering};
+use std::sync::Mutex;
+
+#[derive(Clone, Copy, Debug, PartialEq, Eq)]
+pub(crate) enum Kind {
+    None,
+    Queue,
+    Ping,
+    Timeout,
+    Kill,
+    Dns,
+    Input,
+}
+
+#[derive(Clone, Debug, Default)]
+pub(crate) struct ConnRec {
+    pub(crate) lines_taken: u64,
+    pub(crate) lines_done: u64,
+    pub(crate) q_done: u64,
+    pub(crate) pings_done: u64,
+    pub(crate) timeouts_done: u64,
+    pub(crate) kills_done: u64,
+    pub(crate) kills_lost: u64,
+    pub(crate) written: u64,
+    pub(crate) q_dropped: u64,
+    pub(crate) pending_written: u64,
+    pub(crate) cur: u8,
+    pub(crate) quit: bool,
+    pub(crate) ended: bool,
+    pub(crate) dropped: bool,
+    // copy of the connection-private state, published at every flush
+    pub(crate) nick: Option<String>,
+    pub(crate) name: Option<String>,
+    pub(crate) realname: Option<String>,
+    pub(crate) password: Option<String>,
+    pub(crate) source: String,
+    pub(crate) hostname: String,
+    pub(crate) authenticated: bool,
+    pub(crate) registered: bool,
+    pub(crate) capneg: bool,
+    pub(crate) multi_prefix: bool,
+    pub(crate) has_sender: bool,
+    pub(crate) has_pong_notifier: bool,
+}
+
+#[derive(Default)]
+pub(crate) struct Registry {
+    // key: peer address "ip:port"
+    pub(crate) conns: BTreeMap<String, ConnRec>,
+    // peer addresses whose task has finished (registered or refused)
+    pub(crate) task_done: BTreeMap<String, u64>,
+}
+
+lazy_static::lazy_static! {
+    pub(crate) static ref REG: Mutex<Registry> = Mutex::new(Registry::default());
+    pub(crate) static ref NOTIFY: tokio::sync::Notify = tokio::sync::Notify::new();
+}
+
+pub(crate) static ENQ: AtomicU64 = AtomicU64::new(0);
+pub(crate) static SIG_SENT: AtomicU64 = AtomicU64::new(0);
+pub(crate) static RACE_ARMED: AtomicBool = AtomicBool::new(false);
+pub(crate) static RACE_SEED: AtomicU64 = AtomicU64::new(0);
+pub(crate) static RACE_HITS: AtomicU64 = AtomicU64::new(0);
+
+fn kind_code(k: Kind) -> u8 {
+    match k {
+        Kind::None => 0,
+        Kind::Queue => 1,
+        Kind::Ping => 2,
+        Kind::Timeout => 3,
+        Kind::Kill => 4,
+        Kind::Dns => 5,
+        Kind::Input => 6,
+    }
+}
+
+fn peer_key(conn_state: &ConnState) -> String {
+    match conn_state.stream.get_ref() {
+        DualTcpStream::PlainStream(t) => t.peer_addr().map(|a| a.to_string()),
+        #[cfg(feature = "tls_rustls")]
+        DualTcpStream::SecureStream(t) => t.get_ref().0.peer_addr().map(|a| a.to_string()),
+        #[cfg(feature = "tls_openssl")]
+        DualTcpStream::SecureStream(t) => t.get_ref().peer_addr().map(|a| a.to_string()),
+    }
+    .unwrap_or_else(|_| conn_state.verif_key.clone())
+}
+
+fn publish(rec: &mut ConnRec, conn_state: &ConnState) {
+    let us = &conn_state.user_state;
+    rec.nick = us.nick.clone();
+    rec.name = us.name.clone();
+    rec.realname = us.realname.clone();
+    rec.password = us.password.clone();
+    rec.source = us.source.clone();
+    rec.hostname = us.hostname.clone();
+    rec.authenticated = us.authenticated;
+    rec.registered = us.registered;
+    rec.capneg = conn_state.caps_negotation;
+    rec.multi_prefix = conn_state.caps.multi_prefix;
+    rec.has_sender = conn_state.sender.is_some();
+    rec.has_pong_notifier = conn_state.pong_notifier.is_some();
+    rec.quit = conn_state.is_quit();
+}
+
+pub(crate) fn reset() {
+    let mut reg = REG.lock().unwrap();
+    reg.conns.clear();
+    reg.task_done.clear();
+    ENQ.store(0, Ordering::SeqCst);
+    SIG_SENT.store(0, Ordering::SeqCst);
+    RACE_HITS.store(0, Ordering::SeqCst);
+}
+
+// a new connection got its ConnState (it holds a connection slot from now on)
+pub(crate) fn opened(conn_state: &mut ConnState, addr: &std::net::SocketAddr) {
+    conn_state.verif_key = addr.to_string();
+    let mut reg = REG.lock().unwrap();
+    let mut rec = ConnRec::default();
+    publish(&mut rec, conn_state);
+    reg.conns.insert(conn_state.verif_key.clone(), rec);
+    drop(reg);
+    NOTIFY.notify_waiters();
+}
+
+// the per-connection task is over (also for refused connections)
+pub(crate) fn task_done(addr: &std::net::SocketAddr) {
+    let mut reg = REG.lock().unwrap();
+    *reg.task_done.entry(addr.to_string()).or_insert(0) += 1;
+    drop(reg);
+    NOTIFY.notify_waiters();
+}
+
+// head of a select! arm: what this loop iteration is about
+pub(crate) fn taken(conn_state: &ConnState, kind: Kind) {
+    let mut reg = REG.lock().unwrap();
+    if let Some(rec) = reg.conns.get_mut(&conn_state.verif_key) {
+        rec.cur = kind_code(kind);
+        if kind == Kind::Input {
+            rec.lines_taken += 1;
+        }
+    }
+}
+
+pub(crate) fn before_flush(conn_state: &ConnState) {
+    let n = conn_state.stream.verif_buffered() as u64;
+    let mut reg = REG.lock().unwrap();
+    if let Some(rec) = reg.conns.get_mut(&conn_state.verif_key) {
+        rec.pending_written = n;
+    }
+}
+
+// the iteration's output is flushed to the socket
+pub(crate) fn flushed(conn_state: &ConnState) {
+    let mut reg = REG.lock().unwrap();
+    if let Some(rec) = reg.conns.get_mut(&conn_state.verif_key) {
+        rec.written += rec.pending_written;
+        rec.pending_written = 0;
+        match rec.cur {
+            1 => rec.q_done += 1,
+            2 => rec.pings_done += 1,
+            3 => rec.timeouts_done += 1,
+            4 => rec.kills_done += 1,
+            6 => rec.lines_done += 1,
+            _ => {}
+        }
+        rec.cur = 0;
+        publish(rec, conn_state);
+    }
+    drop(reg);
+    NOTIFY.notify_waiters();
+}
+
+// after remove_user: the session is over
+pub(crate) fn ended(conn_state: &mut ConnState) {
+    let mut dropped = 0;
+    while conn_state.receiver.try_recv().is_ok() {
+        dropped += 1;
+    }
+    let lost = matches!((&mut conn_state.quit_receiver).now_or_never(), Some(Ok(_)));
+    let mut reg = REG.lock().unwrap();
+    if let Some(rec) = reg.conns.get_mut(&conn_state.verif_key) {
+        rec.q_dropped += dropped;
+        if lost {
+            rec.kills_lost += 1;
+        }
+        publish(rec, conn_state);
+        rec.ended = true;
+        rec.quit = true;
+    }
+    drop(reg);
+    NOTIFY.notify_waiters();
+}
+
+// the ConnState is gone: normally right after `ended`; without it the task died abnormally
+pub(crate) fn dropped(conn_state: &ConnState) {
+    if let Ok(mut reg) = REG.lock() {
+        if let Some(rec) = reg.conns.get_mut(&conn_state.verif_key) {
+            rec.dropped = true;
+        }
+    }
+    NOTIFY.notify_waiters();
+}
+
+// a line was put on some user's queue
+pub(crate) fn enq() {
+    ENQ.fetch_add(1, Ordering::SeqCst);
+}
+
+// a KILL/DIE signal was delivered to a connection's oneshot
+pub(crate) fn sig_sent() {
+    SIG_SENT.fetch_add(1, Ordering::SeqCst);
+}
+
+// seeded yield/sleep point placed where the state lock is released between
+// a check and the corresponding update; inert unless armed by a driver
+pub(crate) async fn race_point(site: u32) {
+    if RACE_ARMED.load(Ordering::Relaxed) {
+        let n = RACE_HITS.fetch_add(1, Ordering::Relaxed);
+        let mut x = RACE_SEED
+            .load(Ordering::Relaxed)
+            .wrapping_add(n.wrapping_mul(0x9E3779B97F4A7C15))
+            .wrapping_add((site as u64).wrapping_mul(0xBF58476D1CE4E5B9));
+        x ^= x >> 30;
+        x = x.wrapping_mul(0xBF58476D1CE4E5B9);
+        x ^= x >> 27;
+        x = x.wrapping_mul(0x94D049BB133111EB);
+        x ^= x >> 31;
+        match x % 8 {
+            0 | 1 | 2 => tokio::task::yield_now().await,
+            3 => tokio::time::sleep(std::time::Duration::from_micros(200 + (x >> 8) % 1800)).await,
+            _ => {}
+        }
+    }
+}
+
+fn esc(s: &str, out: &mut String) {
+    out.push('"');
+    for c in s.chars() {
+        match c {
+            '"' => out.push_str("\\\""),
+            '\\' => out.push_str("\\\\"),
+            '\n' => out.push_str("\\n"),
+            '\r' => out.push_str("\\r"),
+            '\t' => out.push_str("\\t"),
+            c if (c as u32) < 0x20 => {
+                let _ = write!(out, "\\u{:04x}", c as u32);
+            }
+            c => out.push(c),
+        }
+    }
+    out.push('"');
+}
+
+fn arr<'a, I: Iterator<Item = &'a String>>(it: I, out: &mut String) {
+    let mut v: Vec<&String> = it.collect();
+    v.sort();
+    out.push('[');
+    for (i, s) in v.iter().enumerate() {
+        if i > 0 {
+            out.push(',');
+        }
+        esc(s, out);
+    }
+    out.push(']');
+}
+
+fn opt(o: &Option<String>, out: &mut String) {
+    match o {
+        Some(s) => {
+            out.push('[');
+            esc(s, out);
+            out.push(']');
+        }
+        None => out.push_str("[]"),
+    }
+}
+
+fn optset(o: &Option<std::collections::HashSet<String>>, out: &mut String) {
+    match o {
+        Some(s) => arr(s.iter(), out),
+        None => out.push_str("[]"),
+    }
+}
+
+impl MainState {
+    // JSON projection of the shared state and of the published per-connection records
+    pub(crate) async fn verif_snapshot(&self) -> String {
+        let state = self.state.read().await;
+        let mut o = String::with_capacity(4096);
+        o.push_str("{\"users\":{");
+        let mut nicks: Vec<&String> = state.users.keys().collect();
+        nicks.sort();
+        for (i, n) in nicks.iter().enumerate() {
+            let u = state.users.get(*n).unwrap();
+            if i > 0 {
+                o.push(',');
+            }
+            esc(n, &mut o);
+            o.push_str(":{\"host\":");
+            esc(&u.hostname, &mut o);
+            o.push_str(",\"uname\":");
+            esc(&u.name, &mut o);
+            o.push_str(",\"real\":");
+            esc(&u.realname, &mut o);
+            o.push_str(",\"src\":");
+            esc(&u.source, &mut o);
+            o.push_str(",\"modes\":[");
+            let mut first = true;
+            for (f, c) in [
+                (u.modes.invisible, "i"),
+                (u.modes.oper, "o"),
+                (u.modes.local_oper, "O"),
+                (u.modes.registered, "r"),
+                (u.modes.wallops, "w"),
+            ] {
+                if f {
+                    if !first {
+                        o.push(',');
+                    }
+                    first = false;
+                    esc(c, &mut o);
+                }
+            }
+            o.push_str("],\"away\":");
+            opt(&u.away, &mut o);
+            o.push_str(",\"chans\":");
+            arr(u.channels.iter(), &mut o);
+            o.push_str(",\"invited\":");
+            arr(u.invited_to.iter(), &mut o);
+            let _ = write!(
+                o,
+                ",\"killable\":{},\"qclosed\":{}}}",
+                u.quit_sender.is_some(),
+                u.sender.is_closed()
+            );
+        }
+        o.push_str("},\"chans\":{");
+        let mut chs: Vec<&String> = state.channels.keys().collect();
+        chs.sort();
+        for (i, cn) in chs.iter().enumerate() {
+            let c = state.channels.get(*cn).unwrap();
+            if i > 0 {
+                o.push(',');
+            }
+            esc(cn, &mut o);
+            o.push_str(":{\"members\":{");
+            let mut ms: Vec<&String> = c.users.keys().collect();
+            ms.sort();
+            for (j, m) in ms.iter().enumerate() {
+                let chum = c.users.get(*m).unwrap();
+                if j > 0 {
+                    o.push(',');
+                }
+                esc(m, &mut o);
+                o.push_str(":[");
+                let mut first = true;
+                for (f, r) in [
+                    (chum.founder, "q"),
+                    (chum.protected, "a"),
+                    (chum.operator, "o"),
+                    (chum.half_oper, "h"),
+                    (chum.voice, "v"),
+                ] {
+                    if f {
+                        if !first {
+                            o.push(',');
+                        }
+                        first = false;
+                        esc(r, &mut o);
+                    }
+                }
+                o.push(']');
+            }
+            o.push_str("},\"rs\":{\"q\":");
+            optset(&c.modes.founders, &mut o);
+            o.push_str(",\"a\":");
+            optset(&c.modes.protecteds, &mut o);
+            o.push_str(",\"o\":");
+            optset(&c.modes.operators, &mut o);
+            o.push_str(",\"h\":");
+            optset(&c.modes.half_operators, &mut o);
+            o.push_str(",\"v\":");
+            optset(&c.modes.voices, &mut o);
+            o.push_str("},\"flags\":[");
+            let mut first = true;
+            for (f, r) in [
+                (c.modes.invite_only, "i"),
+                (c.modes.moderated, "m"),
+                (c.modes.secret, "s"),
+                (c.modes.protected_topic, "t"),
+                (c.modes.no_external_messages, "n"),
+            ] {
+                if f {
+                    if !first {
+                        o.push(',');
+                    }
+                    first = false;
+                    esc(r, &mut o);
+                }
+            }
+            o.push_str("],\"key\":");
+            opt(&c.modes.key, &mut o);
+            match c.modes.client_limit {
+                Some(l) => {
+                    let _ = write!(o, ",\"limit\":[{}]", l);
+                }
+                None => o.push_str(",\"limit\":[]"),
+            }
+            o.push_str(",\"ban\":");
+            optset(&c.modes.ban, &mut o);
+            o.push_str(",\"exc\":");
+            optset(&c.modes.exception, &mut o);
+            o.push_str(",\"invex\":");
+            optset(&c.modes.invite_exception, &mut o);
+            o.push_str(",\"banwho\":{");
+            let mut bi: Vec<&String> = c.ban_info.keys().collect();
+            bi.sort();
+            for (j, b) in bi.iter().enumerate() {
+                if j > 0 {
+                    o.push(',');
+                }
+                esc(b, &mut o);
+                o.push(':');
+                esc(&c.ban_info.get(*b).unwrap().who, &mut o);
+            }
+            o.push_str("},\"topic\":");
+            match &c.topic {
+                Some(t) => {
+                    o.push('[');
+                    esc(&t.topic, &mut o);
+                    o.push_str("],\"topicby\":[");
+                    esc(&t.nick, &mut o);
+                    o.push(']');
+                }
+                None => o.push_str("[],\"topicby\":[]"),
+            }
+            let _ = write!(o, ",\"preconf\":{},\"def\":{{\"q\":", c.preconfigured);
+            arr(c.default_modes.founders.iter(), &mut o);
+            o.push_str(",\"a\":");
+            arr(c.default_modes.protecteds.iter(), &mut o);
+            o.push_str(",\"o\":");
+            arr(c.default_modes.operators.iter(), &mut o);
+            o.push_str(",\"h\":");
+            arr(c.default_modes.half_operators.iter(), &mut o);
+            o.push_str(",\"v\":");
+            arr(c.default_modes.voices.iter(), &mut o);
+            o.push_str("}}");
+        }
+        o.push_str("},\"wallops\":");
+        arr(state.wallops_users.iter(), &mut o);
+        let _ = write!(
+            o,
+            ",\"invCnt\":{},\"operCnt\":{},\"maxUsers\":{},\"whowas\":{{",
+            state.invisible_users_count, state.operators_count, state.max_users_count
+        );
+        let mut hs: Vec<&String> = state.nick_histories.keys().collect();
+        hs.sort();
+        for (i, h) in hs.iter().enumerate() {
+            if i > 0 {
+                o.push(',');
+            }
+            esc(h, &mut o);
+            o.push_str(":[");
+            for (j, e) in state.nick_histories.get(*h).unwrap().iter().enumerate() {
+                if j > 0 {
+                    o.push(',');
+                }
+                o.push_str("{\"uname\":");
+                esc(&e.username, &mut o);
+                o.push_str(",\"host\":");
+                esc(&e.hostname, &mut o);
+                o.push_str(",\"real\":");
+                esc(&e.realname, &mut o);
+                o.push('}');
+            }
+            o.push(']');
+        }
+        let _ = write!(
+            o,
+            "}},\"connCnt\":{},\"up\":{},\"conns\":{{",
+            self.conns_count.load(Ordering::SeqCst),
+            state.quit_sender.is_some()
+        );
+        drop(state);
+        let reg = REG.lock().unwrap();
+        let mut first = true;
+        for (k, r) in reg.conns.iter() {
+            if !first {
+                o.push(',');
+            }
+            first = false;
+            esc(k, &mut o);
+            o.push_str(":{\"nick\":");
+            opt(&r.nick, &mut o);
+            o.push_str(",\"uname\":");
+            opt(&r.name, &mut o);
+            o.push_str(",\"real\":");
+            opt(&r.realname, &mut o);
+            o.push_str(",\"pass\":");
+            opt(&r.password, &mut o);
+            o.push_str(",\"src\":");
+            esc(&r.source, &mut o);
+            o.push_str(",\"host\":");
+            esc(&r.hostname, &mut o);
+            let _ = write!(
+                o,
+                ",\"authed\":{},\"cfgreg\":{},\"capneg\":{},\"mp\":{},\"hasq\":{},\"pongwait\":{},\"quit\":{},\"ended\":{},\"dropped\":{}}}",
+                r.authenticated,
+                r.registered,
+                r.capneg,
+                r.multi_prefix,
+                r.has_sender,
+                r.has_pong_notifier,
+                r.quit,
+                r.ended,
+                r.dropped
+            );
+        }
+        o.push_str("}}");
+        o
+    }
+}
